@@ -107,4 +107,22 @@ TEXT["C07"] = {
     "note": COMMON_NOTE + "SHA-512 and Ed25519 are oracles/parameters in the theorems (Gallina SHA-512 for execution, "
             "validated against crypto/sha512); Ed25519 sign/verify answers are per-case tables from the standard library; "
             "os.File seek/stat modelled as size + last 8 bytes."}
+TEXT["C18"] = {
+    "text": "PARTIAL. Proved: every serializer model is invariant under permutation of its header / parameter / attribute / "
+            "index maps (the model takes Go's map iteration order as an arbitrary list), and being Gallina functions the "
+            "models have no hidden state. Not provable here: Go map randomisation, goroutine schedules and data races are "
+            "runtime behaviour - they are OBSERVED each run: every serializer is called repeatedly, with permuted insertion "
+            "orders, on fresh and on shared objects (one parsed bundle / exchange / chain / Signer), from 32 goroutines with "
+            "randomised start order in a harness built with -race; outputs must equal the single model output and any race "
+            "report is a violation.",
+    "note": COMMON_NOTE + "Race freedom is sampled by the Go race detector, not proved; the Go memory model and scheduler are not modelled."}
+TEXT["C19"] = {
+    "text": "Theorem (generic over ALL chunkings of the output into Write calls, every fault position k, both fault modes): "
+            "a run that stops at the first failing Write reports an error iff k < |output|, accepts a prefix of the fault-free "
+            "output of at most k bytes, and counts exactly what was accepted. That the Go code checks every Write is "
+            "established by the correspondence run, exhaustive in k (every k in [0, |output|], both modes, destinations with and "
+            "without ReaderFrom) for bundle, signed exchange, header dump, signed message, cert chain, MI and CBOR encoders, "
+            "judged by the property itself (prefix / error / count), not by equality with the model.",
+    "note": COMMON_NOTE + "The theorem is about run_writes (every Write result checked and returned); a dropped error check in Go "
+            "shows as a concrete k in the correspondence run."}
 NOT_YET = {}
